@@ -35,9 +35,19 @@ type Clause struct {
 	Loop  int
 	Line  int
 	File  string
+	Target string // atcall: substring of the callee name
+}
+
+// GhostLocal: a history variable, initialised at function entry and updated
+// by aftercall clauses only; havoced at every loop head (invariants restate it).
+type GhostLocal struct {
+	Name string
+	Type string // bool | int
+	Init Expr
 }
 
 type FuncContract struct {
+	Missing  bool   // the function named by the contract does not exist in the current tree
 	Key      string // "(*T).Name", "Name", "iface pkg.Type.Method"
 	Pkg      string
 	IsIface  bool
@@ -61,6 +71,9 @@ type FuncContract struct {
 	Decreases *Clause
 	GhostDefs []*Clause
 	AtReturn []*Clause
+	AtCall   []*Clause // call-site assertions: `atcall <callee> <expr>` (locals and arg0..argN in scope)
+	GhostLocals []*GhostLocal // history variables of the function under verification
+	AfterCall   []*Clause     // `aftercall <callee> set <ghostlocal> = <expr>` (result0.., arg0.. in scope)
 	Assumes  []*Clause
 	Opts     map[string]string
 	Line     int
@@ -268,6 +281,43 @@ func parseContractFile(path, pkgPath string, cs *Contracts) error {
 					return err
 				}
 				cur.AtReturn = append(cur.AtReturn, cl)
+			case "ghostlocal":
+				// ghostlocal name type = expr
+				nm, r1 := splitWord(rest)
+				ty, r2 := splitWord(r1)
+				r2 = strings.TrimSpace(r2)
+				if !strings.HasPrefix(r2, "=") || (ty != "bool" && ty != "int") {
+					return fmt.Errorf("%s:%d: ghostlocal <name> bool|int = <expr>", path, rl.line)
+				}
+				e, err := parseExpr(strings.TrimSpace(r2[1:]))
+				if err != nil {
+					return fmt.Errorf("%s:%d: %v", path, rl.line, err)
+				}
+				cur.GhostLocals = append(cur.GhostLocals, &GhostLocal{Name: nm, Type: ty, Init: e})
+			case "aftercall":
+				// aftercall <callee> set <name> = <expr>
+				tgt, r1 := splitWord(rest)
+				kw, r2 := splitWord(r1)
+				nm, r3 := splitWord(r2)
+				r3 = strings.TrimSpace(r3)
+				if kw != "set" || !strings.HasPrefix(r3, "=") {
+					return fmt.Errorf("%s:%d: aftercall <callee> set <ghostlocal> = <expr>", path, rl.line)
+				}
+				cl, err := mkClause("aftercall", strings.TrimSpace(r3[1:]))
+				if err != nil {
+					return err
+				}
+				cl.Target = tgt
+				cl.Label = nm
+				cur.AfterCall = append(cur.AfterCall, cl)
+			case "atcall":
+				tgt, e := splitWord(rest)
+				cl, err := mkClause("atcall", e)
+				if err != nil {
+					return err
+				}
+				cl.Target = tgt
+				cur.AtCall = append(cur.AtCall, cl)
 			case "ghostdef":
 				cl, err := mkClause("ghostdef", rest)
 				if err != nil {
